@@ -106,6 +106,9 @@ func stanzaFor(sym string, fileKey []byte, label string) refage.Stanza {
 	case "U48":
 		return cloneStanza(greaseU48)
 	}
+	if isLong(sym) {
+		return longStanza(sym)
+	}
 	return wrapFor(keys.P(symParty[sym]), fileKey, label)
 }
 
@@ -133,6 +136,7 @@ type original struct {
 	name    string
 	doFlip  bool
 	doEdit  bool
+	doField bool // long-field sweep (long.go)
 	// macAgrees: the reference computes the same header MAC (always true for
 	// reference-built originals)
 	macAgrees bool
@@ -210,6 +214,11 @@ func buildAge(seed int64, mix []string) (*original, error) {
 		case "U48":
 			rcpts = append(rcpts, &keys.Unknown{Stanzas: []*age.Stanza{{Type: greaseU48.Type, Args: greaseU48.Args, Body: greaseU48.Body}}})
 		default:
+			if isLong(s) {
+				ls := longStanza(s)
+				rcpts = append(rcpts, &keys.Unknown{Stanzas: []*age.Stanza{{Type: ls.Type, Args: ls.Args, Body: ls.Body}}})
+				continue
+			}
 			p := keys.P(symParty[s])
 			if first == nil && isMine(s) {
 				first = p
